@@ -41,6 +41,7 @@ class Gen:
         self.force_scope = None
         self.focus_acc = None
         self.bare = 0.0  # probability that a setup/launch statement is a bare launch on a visible state instead
+        self.callee = False  # the module DEFINES a function @h that programs the accelerators; @f calls it without annotation
         self.ifinput = 0.0  # probability that one field of a setup is computed by an scf.if from a local and an outer computed value
 
     def loop_bounds(self):
@@ -207,7 +208,7 @@ class Gen:
                 for _k in [k for k in cur if not k.startswith('_')]:
                     del cur[_k]
             elif k < 0.61:
-                out.append(f"{ind}func.call @g() : () -> ()")
+                out.append(f"{ind}func.call @{'h' if self.callee and self.r.random() < 0.7 else 'g'}() : () -> ()")
                 for _k in [k for k in cur if not k.startswith('_')]:
                     del cur[_k]
             elif k < 0.66:
@@ -289,7 +290,15 @@ class Gen:
         body = self.block(args, self.depth, "  ", self.r.randint(3, 8) if self.focus else self.r.randint(2, 5), {})
         sig = ", ".join([f"%x{i} : i32" for i in range(NARGS)] + ["%c0 : i1", "%c1 : i1"]
                         + [f"%{n}{b} : index" for b in range(NBOUNDS) for n in ("lb", "ub", "st")])
-        return ("func.func private @g() -> ()\n"
+        helper = ""
+        if self.callee:
+            # a helper that itself programs every accelerator (and calls nothing unmarked)
+            hl = ["func.func @h() {", "  %hz = arith.constant 77 : i32"]
+            for n, a in enumerate(self.accs):
+                ps = ", ".join(f'"{f}" = %hz : i32' for f in FIELDS[a])
+                hl.append(f'  %hs{n} = accfg.setup "{a}" to ({ps}) : {st_ty(a)}')
+            helper = "\n".join(hl + ["  func.return", "}"]) + "\n"
+        return ("func.func private @g() -> ()\n" + helper +
                 f"func.func @f({sig}) {{\n"
                 + ("  %lv = arith.constant 1 : i5\n" if self.launch_vals else "")
                 + "".join(f"  %k{k} = arith.constant {k} : index\n" for k in range(5))
@@ -616,6 +625,14 @@ def well_formed_regions(module) -> bool:
     return True
 
 
+def call_has_effects(op) -> bool:
+    """The effect class of a call as the property states it (computed from the IR alone, NOT with the repository's
+    has_accfg_effects): a call clobbers every register unless it carries accfg.effects<none> — whatever the callee is."""
+    from snaxc.dialects import accfg
+    eff = op.attributes.get("accfg.effects")
+    return not (isinstance(eff, accfg.EffectsAttr) and eff.data == accfg.EffectsEnum.NONE)
+
+
 def find_func(module, name="f"):
     for op in module.walk():
         if isinstance(op, func.FuncOp) and op.sym_name.data == name:
@@ -807,12 +824,11 @@ class Conv:
             a = [self.use(op.input)]
             return ["pure", self.var(op.result), ["cast"], a]
         if isinstance(op, func.CallOp):
-            from snaxc.inference.helpers import has_accfg_effects
             self.ncall += 1
             self.calltag[op] = self.ncall
             if op.operands or op.results:
                 raise Unsupported("call with operands")
-            return ["call", self.ncall, bool(has_accfg_effects(op))]
+            return ["call", self.ncall, call_has_effects(op)]
         if isinstance(op, scf.IfOp):
             data = [k for k, r in enumerate(op.results) if not self.is_state(r)]
             if data and not self.carried:
